@@ -76,7 +76,7 @@ def mutate(trace, rng):
     return t
 
 
-DEBUG_FIELDS = ("text", "s", "fmt_used", "T")
+DEBUG_FIELDS = ("text", "s", "fmt_used", "T", "extra_bad_lines")
 
 
 def slim(trace):
